@@ -16,7 +16,7 @@
 use crate::adapter::Adapter;
 use crate::constants::{HASH_FIELD, PACK_EXTENSION};
 use crate::revision::Revision;
-use crate::utils::digest_bytes;
+use crate::utils::{digest_bytes, parse_stored_json};
 use anyhow::{anyhow, bail, Result};
 use lru::LruCache;
 use serde_json::json;
@@ -240,7 +240,7 @@ impl DataStorage {
                 return Err(anyhow!("corrupted_value"));
             }
             let json = std::str::from_utf8(&data)?;
-            let json: Value = serde_json::from_str(json)?;
+            let json: Value = parse_stored_json(json)?;
             Ok(json)
         } else if let Some(value) = self.stage.get(digest) {
             Ok(value.clone())
